@@ -418,11 +418,16 @@ func judgeC10Src(c *core.Case, cfg *core.Config) core.Verdict {
 	return v
 }
 
-type patch41 struct{}
+type patch41 struct{ retype bool }
 
 func (patch41) Enter(*ast.Node) {}
-func (patch41) Exit(n *ast.Node) {
+func (p patch41) Exit(n *ast.Node) {
 	if i, ok := (*n).(*ast.IntegerNode); ok && i.Value == 41 {
+		if p.retype {
+			// a patch that changes the node's type: the tree must be checked again, not compiled with stale types
+			ast.Patch(n, &ast.FloatNode{Value: 41.5})
+			return
+		}
 		ast.Patch(n, &ast.IntegerNode{Value: 42})
 	}
 }
@@ -444,7 +449,11 @@ func judgeC10Patch(c *core.Case, cfg *core.Config) core.Verdict {
 			return
 		}
 		if n.K == "lit" && n.Ty.K == core.KInt && n.I == 41 && n.S == "" {
-			n.I = 42
+			if c.Bool("retype") {
+				n.Ty, n.F, n.I = core.TF64, 41.5, 0
+			} else {
+				n.I = 42
+			}
 			n41++
 			where[ctx] = true
 		}
@@ -478,7 +487,7 @@ func judgeC10Patch(c *core.Case, cfg *core.Config) core.Verdict {
 	src41 := (&core.Printer{Parens: core.ParenFull}).Print(x)
 	c.Source = src41
 	opt := c.Bool("opt")
-	pa, erra := compile(src41, expr.Env(core.Env{}), expr.Optimize(opt), expr.Patch(patch41{}))
+	pa, erra := compile(src41, expr.Env(core.Env{}), expr.Optimize(opt), expr.Patch(patch41{retype: c.Bool("retype")}))
 	pb, errb := compile(src42, expr.Env(core.Env{}), expr.Optimize(opt))
 	if (erra == nil) != (errb == nil) {
 		v.Violation = fmt.Sprintf("%q with Patch(41->42) compiles: %v; %q compiles: %v", src41, errStr(erra), src42, errStr(errb))
@@ -497,6 +506,9 @@ func judgeC10Patch(c *core.Case, cfg *core.Config) core.Verdict {
 	}
 	for w := range where {
 		v.Classes = append(v.Classes, "patched-in:"+w)
+	}
+	if c.Bool("retype") {
+		v.Classes = append(v.Classes, "type-changing-patch")
 	}
 	v.NonTriv = true
 	return v
@@ -636,7 +648,7 @@ func TestC10(t *testing.T) {
 	if !ok {
 		return
 	}
-	core.RunRapid(t, rec, "patch", cfg.N(6000, 100000), func(rt *rapid.T) *core.Case {
+	core.RunRapid(t, rec, "patch", cfg.N(15000, 300000), func(rt *rapid.T) *core.Case {
 		spec := core.GenEnvSpec(rt, "", 4)
 		g := core.NewGen(rt, spec, rapid.IntRange(5, 40).Draw(rt, "fuel"), cfg.Excl)
 		g.Calls = false
@@ -663,6 +675,7 @@ func TestC10(t *testing.T) {
 		c.X, c.Env = x, spec
 		c.Source = x.FullSrc()
 		c.P["opt"] = rapid.Bool().Draw(rt, "opt")
+		c.P["retype"] = rapid.Bool().Draw(rt, "retype")
 		return c
 	})
 }
